@@ -52,6 +52,10 @@ def _tag(s: Sym) -> Optional[Tuple[str, str, Sym, Sym, Any]]:
         return ("r", "floor", s[2], s[3], 1)
     if s[0] == "item" and s[1][0] == "call" and dotted(s[1][1]) == "divmod" and len(s[1][2]) == 2:
         return ("q" if s[2] == 0 else "r", "floor", s[1][2][0], s[1][2][1], 1)
+    fb_ = _floor_base(s)
+    if fb_ is not None and fb_[1][0] == "op" and fb_[1][1] == "//" and fb_[1][3] == N("_1_microsecond"):
+        # X.days * 86400 + X.seconds / X.microseconds: floor quotient / remainder of the microsecond total
+        return (fb_[0], "floor", fb_[1], fb_[2], 1)
     if s[0] == "op" and s[1] == "*" and len(s) == 4:
         for a, b in ((s[2], s[3]), (s[3], s[2])):
             if b[0] == "c" and isinstance(b[1], (int, float)):
@@ -136,6 +140,31 @@ def _lin_in_base(t: Sym):
     return None
 
 
+def _norm_td(t):
+    """1 * x -> x, -1 * x -> -x, and (q * 10**6 + r) with q / r the floor quotient / remainder of a timedelta's microsecond total
+    by 10**6 (read off its normalised fields) -> that total, written X // _1_microsecond"""
+    if not isinstance(t, tuple) or not t:
+        return t
+    if t[0] in ("c", "n"):
+        return t
+    t = tuple(_norm_td(x) if isinstance(x, tuple) else x for x in t)
+    if t[0] == "op" and t[1] == "*" and len(t) == 4:
+        for a, b in ((t[2], t[3]), (t[3], t[2])):
+            if a == C(1):
+                return b
+            if a == C(-1):
+                return ("op", "neg", b)
+    if t[0] == "op" and t[1] == "+" and len(t) == 4:
+        for a, b in ((t[2], t[3]), (t[3], t[2])):
+            fr = _floor_base(b)
+            if fr is not None and fr[0] == "r" and fr[2][0] == "c" and a[0] == "op" and a[1] == "*" and len(a) == 4:
+                for u, w in ((a[2], a[3]), (a[3], a[2])):
+                    fq = _floor_base(u)
+                    if w == fr[2] and fq is not None and fq[0] == "q" and fq[1] == fr[1] and fq[2] == fr[2] and fr[1][0] == "op" and fr[1][1] == "//" and fr[1][3] == N("_1_microsecond"):
+                        return fr[1]
+    return t
+
+
 def _same_sign_by_ranges(sec: Sym, nan: Sym, val) -> Optional[Tuple[str, str]]:
     """Duration parts built from a floor quotient q and remainder r of one division (possibly adjusted: q + 1, r - D, negated):
     on this path, do they add up to the value, can they have opposite signs, does |nanos| stay below one second?
@@ -155,6 +184,9 @@ def _same_sign_by_ranges(sec: Sym, nan: Sym, val) -> Optional[Tuple[str, str]]:
         return ("bad", f"seconds = {show(sec)} and nanos = {show(nan)} do not add up to the value (off by {cq * D * K + cr} nanos)")
     is_abs = num[0] == "call" and dotted(num[1]) == "abs" and len(num[2]) == 1
     x = num[2][0] if is_abs else num
+    if not is_abs and num[0] == "op" and num[1] == "neg" and val.get(("op", "<", num[2], C(0))) is True:
+        # -x on a path that found x negative is abs(x)
+        is_abs, x = True, num[2]
     neg = val.get(("op", "<", x, C(0)))
     if neg is None and val.get(("op", "<", C(-1), x)) is not None:
         neg = not val[("op", "<", C(-1), x)]
@@ -210,7 +242,7 @@ def rule_Q1(ctx) -> None:
                 h = mod.func(c.func.id)
                 if len(h.body) <= 10 and not any(isinstance(n, (ast.For, ast.While)) for n in ast.walk(h)):
                     inl[c.func.id] = (mod, h)
-        paths = Interp(mod, inline=inl).run(fn)
+        paths = Interp(mod, inline=inl, fork_ifexp=True).run(fn)
         ctx.count(len(paths))
         name = f"{q.split('.')[-1]}:division-convention"
         verdicts = []
@@ -221,8 +253,9 @@ def rule_Q1(ctx) -> None:
             if args is None:
                 verdicts.append(("inc", f"return value {show(p.value)} is not cls(seconds, nanos)"))
                 continue
+            args = (_norm_td(args[0]), _norm_td(args[1]))
             if need == "same-sign":
-                v = _same_sign_by_ranges(args[0], args[1], p.valuation)
+                v = _same_sign_by_ranges(args[0], args[1], {_norm_td(k_): v_ for k_, v_ in p.valuation.items()})
                 if v is not None:
                     verdicts.append(v)
                     continue
